@@ -23,6 +23,7 @@ from fgutils.synthesis import rule_application as RA
 from fgutils.synthesis.rule_application import ReactionRule, apply_rule
 
 ID = "C16"
+REPEAT_PROBE = True   # engine: repeat 1 call in 5 after editing its first result in place (purity / no shared state)
 PROPS = "Props/C16.v"
 MODEL_FILES = ["Gen/RuleMap.v", "Model/Rule.v", "Spec/RuleSpec.v", "Spec/RuleCheck.v"]
 IMPORTS = "From FGV Require Import Model.Aam Gen.RuleMap Model.Rule Spec.RuleSpec Spec.RuleCheck."
